@@ -28,6 +28,7 @@ type c03Env struct {
 	stack    int
 	ncache   int
 	sessions []*protoSession
+	s3       *s3Sim
 }
 
 func chunkFile(dir string, id desync.ChunkID, unc bool) string {
@@ -67,6 +68,8 @@ func (e *c03Env) base() (desync.Store, error) {
 		}
 		desync.VerifSetHTTPTransport(cl.RemoteHTTPBase, &simTransport{h: h})
 		return cl, nil
+	case 3:
+		return e.s3.store("pfx", e.upUnc)
 	default:
 		up, err := desync.NewLocalStore(e.dir, desync.StoreOptions{Uncompressed: e.upUnc, SkipVerify: true}) // as `desync pull` configures it
 		if err != nil {
@@ -143,15 +146,58 @@ func runC03(c *fw.Case) {
 	e := &c03Env{c: c, dir: filepath.Join(c.Dir(), "store")}
 	os.MkdirAll(e.dir, 0755)
 	e.upUnc = c.Bool("up.uncompressed")
-	e.backend = c.Draw(3, "backend")
+	e.backend = c.Draw(4, "backend")
+	if e.backend == 3 {
+		var err error
+		if e.s3, err = newS3Sim(); err != nil {
+			c.HarnessError("%v", err)
+			return
+		}
+		defer e.s3.close()
+	}
 	e.srvSkip = c.Bool("srv.skipverify")
 	e.srvComp = c.Bool("srv.compressed")
 	e.stack = c.Draw(7, "stack")
 	defer e.closeSessions()
-	up, err := desync.NewLocalStore(e.dir, desync.StoreOptions{Uncompressed: e.upUnc})
+	var up desync.WriteStore
+	var err error
+	if e.backend == 3 {
+		up, err = e.s3.store("pfx", e.upUnc)
+	} else {
+		up, err = desync.NewLocalStore(e.dir, desync.StoreOptions{Uncompressed: e.upUnc})
+	}
 	if err != nil {
 		c.HarnessError("%v", err)
 		return
+	}
+	// raw access to the stored object of a chunk, whatever the backend keeps it in
+	s3key := func(id desync.ChunkID) string {
+		k := "pfx/" + id.String()[:4] + "/" + id.String()
+		if !e.upUnc {
+			k += desync.CompressedChunkExt
+		}
+		return k
+	}
+	readObj := func(id desync.ChunkID) ([]byte, error) {
+		if e.backend == 3 {
+			e.s3.mu.Lock()
+			defer e.s3.mu.Unlock()
+			b, ok := e.s3.objects[s3key(id)]
+			if !ok {
+				return nil, os.ErrNotExist
+			}
+			return append([]byte(nil), b...), nil
+		}
+		return os.ReadFile(chunkFile(e.dir, id, e.upUnc))
+	}
+	writeObj := func(id desync.ChunkID, b []byte) error {
+		if e.backend == 3 {
+			e.s3.mu.Lock()
+			e.s3.objects[s3key(id)] = append([]byte(nil), b...)
+			e.s3.mu.Unlock()
+			return nil
+		}
+		return os.WriteFile(chunkFile(e.dir, id, e.upUnc), b, 0644)
 	}
 	r := c.Rand("c03.data")
 	mkData := func() []byte {
@@ -184,14 +230,13 @@ func runC03(c *fw.Case) {
 		return
 	}
 	tid := tChunk.ID()
-	tfile := chunkFile(e.dir, tid, e.upUnc)
-	good, err := os.ReadFile(tfile)
+	good, err := readObj(tid)
 	if err != nil {
 		c.HarnessError("%v", err)
 		return
 	}
-	other, _ := os.ReadFile(chunkFile(e.dir, oChunk.ID(), e.upUnc))
-	names := []string{"local", "http", "protocol"}
+	other, _ := readObj(oChunk.ID())
+	names := []string{"local", "http", "protocol", "s3"}
 	c.Class(fmt.Sprintf("%s upUnc=%v srvComp=%v srvSkip=%v stack=%d", names[e.backend], e.upUnc, e.srvComp, e.srvSkip, e.stack))
 	c.Note("backend=%s upstream-uncompressed=%v server-compressed=%v server-skipverify=%v stack=%d chunk=%d bytes stored=%d bytes", names[e.backend], e.upUnc, e.srvComp, e.srvSkip, e.stack, len(tData), len(good))
 
@@ -252,7 +297,7 @@ func runC03(c *fw.Case) {
 		}
 	}
 	write := func(b []byte) bool {
-		if err := os.WriteFile(tfile, b, 0644); err != nil {
+		if err := writeObj(tid, b); err != nil {
 			c.HarnessError("%v", err)
 			return false
 		}
@@ -362,8 +407,7 @@ func runC03(c *fw.Case) {
 				}
 			}
 			victim := idx.Chunks[c.Draw(len(idx.Chunks), "victim")]
-			vf := chunkFile(e.dir, victim.ID, e.upUnc)
-			vb, _ := os.ReadFile(vf)
+			vb, _ := readObj(victim.ID)
 			switch c.Draw(4, "poison") {
 			case 0:
 				if len(vb) > 0 {
@@ -380,7 +424,7 @@ func runC03(c *fw.Case) {
 					vb = otherZstd
 				}
 			}
-			os.WriteFile(vf, vb, 0644)
+			writeObj(victim.ID, vb)
 			c.Fault("pipeline-store-poisoned")
 			s, _, err := e.build()
 			if err != nil {
